@@ -4,3 +4,6 @@ import Desert.Props.C02
 #print axioms C02.record_v0_layout
 #print axioms C02.record_chunk_layout
 #print axioms C02.transient_not_written
+#print axioms C02.pointEnv_wf
+#print axioms C02.point_roundtrip
+#print axioms C02.headerless_wf
